@@ -48,10 +48,32 @@ M_SRC = [
     dict(name="so3_distance", file="src/ompl/base/spaces/src/SO3StateSpace.cpp", sig=r"double ompl::base::SO3StateSpace::distance\(const State \*state1, const State \*state2\) const", rules=M_RULES, loops={}),
     dict(name="so3_equalStates", file="src/ompl/base/spaces/src/SO3StateSpace.cpp", sig=r"bool ompl::base::SO3StateSpace::equalStates\(const State \*state1, const State \*state2\) const", rules=M_RULES, loops={}),
 ]
-for nm, ent, fn, can in (("c06_compound_setSubspaceWeight", "h_setSubspaceWeight", ["CompoundStateSpace::setSubspaceWeight"], [dict(name="tests_the_old_weight", where="body:setSubspaceWeight", rx=r"if \(weight < 0\.0\)", repl="if (index < NW && weights_[index] < 0.0)")]),
-                         ("c06_wrapper_getMaximumExtent", "h_wrapper_extent", ["WrapperStateSpace::getMaximumExtent"], [dict(name="returns_a_cached_value", where="body:wrapper_extent", rx=r"return WRAPPED_EXTENT\(\);", repl="static double cached_; return cached_;")]),
-                         ("c06_so3_equal_vs_distance", "h_so3_equal", ["SO3StateSpace::distance", "SO3StateSpace::equalStates"], [dict(name="equality_by_components", where="body:so3_equalStates", rx=r"return ARCLENGTH\(\) < DBL_EPSILON;", repl="ARCLENGTH(); return 0;")])):
-    UNITS.append(dict(name=nm, template="spaces/c06_misc.c", mode="plain", entry=ent, flags=["--bounds-check", "--pointer-check"], level="proof", backend="cadical", timeout=300, functions=fn, sources=M_SRC, canaries=can))
+for nm, ent, fn, needs, can in (("c06_compound_setSubspaceWeight", "h_setSubspaceWeight", ["CompoundStateSpace::setSubspaceWeight"], ["setSubspaceWeight"], [dict(name="tests_the_old_weight", where="body:setSubspaceWeight", rx=r"if \(weight < 0\.0\)", repl="if (index < NW && weights_[index] < 0.0)")]),
+                         ("c06_wrapper_getMaximumExtent", "h_wrapper_extent", ["WrapperStateSpace::getMaximumExtent"], ["wrapper_extent"], [dict(name="returns_a_cached_value", where="body:wrapper_extent", rx=r"return WRAPPED_EXTENT\(\);", repl="static double cached_; return cached_;")]),
+                         ("c06_so3_equal_vs_distance", "h_so3_equal", ["SO3StateSpace::distance", "SO3StateSpace::equalStates"], ["so3_distance", "so3_equalStates"], [dict(name="equality_by_components", where="body:so3_equalStates", rx=r"return ARCLENGTH\(\) < DBL_EPSILON;", repl="ARCLENGTH(); return 0;")])):
+    UNITS.append(dict(name=nm, template="spaces/c06_misc.c", mode="plain", entry=ent, flags=["--bounds-check", "--pointer-check"], level="proof", backend="cadical", timeout=300, functions=fn, sources=M_SRC, needs=needs, canaries=can))
+# ---------------------------------------------------------------- RealVector extent / distance, term by term (recording stubs for d*d and sqrt)
+RVF = "src/ompl/base/spaces/src/RealVectorStateSpace.cpp"
+RVX_RULES = [(r"const double \*(s\d) = static_cast<const StateType \*>\((\w+)\)->values;", r"const double *\1 = \2->values;", 0), (r"\bdiff \* diff\b", "c_FSQR(diff)", 0), (r"\bd \* d\b", "c_FSQR(d)", 0), (r"(?<![\w.])sqrt\(", "c_SQRTR(", 0)]
+RVX_SRC = [
+    dict(name="rv_extent", file=RVF, sig=r"double ompl::base::RealVectorStateSpace::getMaximumExtent\(\) const", rules=RVX_RULES, loops={1: """
+__CPROVER_assigns(i, e, sq_calls, sq_arg_G, sq_ret_G)
+__CPROVER_loop_invariant(i <= dimension_ && sq_calls == i && (e >= 0.0 || e != e))
+__CPROVER_loop_invariant(G < i ==> (sq_arg_G == HIGH[G] - LOW[G] && (e >= sq_ret_G || e != e)))
+__CPROVER_decreases(dimension_ - i)
+"""}),
+    dict(name="rv_distance_terms", file=RVF, sig=r"double ompl::base::RealVectorStateSpace::distance\(const State \*state1, const State \*state2\) const", rules=RVX_RULES, loops={1: """
+__CPROVER_assigns(i, dist, s1, s2, sq_calls, sq_arg_G, sq_ret_G)
+__CPROVER_loop_invariant(i <= dimension_ && sq_calls == i && (dist >= 0.0 || dist != dist) && s1 == VAL_A + i && s2 == VAL_B + i)
+__CPROVER_loop_invariant(G < i ==> (sq_arg_G == VAL_A[G] - VAL_B[G] && (dist >= sq_ret_G || dist != dist)))
+__CPROVER_decreases(dimension_ - i)
+"""}),
+]
+for nm, ent, enf, fn, can in (("c06_realvector_extent_terms", "h_extent", "rv_extent", ["RealVectorStateSpace::getMaximumExtent"], [dict(name="first_lower_bound_for_all", where="body:rv_extent", rx=r"bounds_\.low\[i\]", repl="bounds_.low[0]")]),
+                          ("c06_realvector_distance_terms", "h_distance_terms", "rv_distance_terms", ["RealVectorStateSpace::distance"], [dict(name="skips_last_coordinate", where="body:rv_distance_terms", rx=r"i < dimension_", repl="i + 1 < dimension_")])):
+    UNITS.append(dict(name=nm, template="spaces/rv_extent.c", entry=ent, sources=RVX_SRC, needs=[enf], enforce=[enf], replace=["c_FSQR", "c_SQRTR"], flags=D.DFLAGS, level="proof", bound="dimension <= 64", expect_loops=1,
+                      functions=fn, canaries=can, backend="cadical", timeout=900, confirm=dict(unwind=4, defines={"MAXDIM": 3})))
+
 # Mobius: the unit of C07 (distance and interpolate agree on the branch) plus symmetry of the branch choice
 import importlib.util as _iu, os as _os, copy as _copy
 _s7 = _iu.spec_from_file_location("c07", _os.path.join(_os.path.dirname(__file__), "C07.py")); _C07 = _iu.module_from_spec(_s7); _s7.loader.exec_module(_C07)
